@@ -75,14 +75,14 @@ inline void __v_assume(bool c) {
 }
 inline void __v_check(bool c, const char* label) {
     verif_native::st().checks++;
-    if (!c) { verif_native::st().failed++; std::printf("FAILED %s\n", label); }
+    if (!c) { verif_native::st().failed++; std::printf("FAILED %s\n", label); std::fflush(stdout); }
 }
 inline void __v_check_eq(double a, double b, const char* label) {
     verif_native::st().checks++;
     double tol = 1e-9 * (std::fabs(a) + std::fabs(b)) + 1e-12;
     if (!(std::fabs(a - b) <= tol)) {
         verif_native::st().failed++;
-        std::printf("FAILED %s : %.17g vs %.17g\n", label, a, b);
+        std::printf("FAILED %s : %.17g vs %.17g\n", label, a, b); std::fflush(stdout);
     }
 }
 inline void __v_check_le(double a, double b, const char* label) {
@@ -90,10 +90,10 @@ inline void __v_check_le(double a, double b, const char* label) {
     double tol = 1e-9 * (std::fabs(a) + std::fabs(b)) + 1e-12;
     if (!(a <= b + tol)) {
         verif_native::st().failed++;
-        std::printf("FAILED %s : %.17g > %.17g\n", label, a, b);
+        std::printf("FAILED %s : %.17g > %.17g\n", label, a, b); std::fflush(stdout);
     }
 }
-inline void __v_reach(const char* label) { std::printf("REACH %s\n", label); }
+inline void __v_reach(const char* label) { std::printf("REACH %s\n", label); std::fflush(stdout); }
 inline void __v_note(const char* label) { std::printf("NOTE %s\n", label); }
 inline void __v_record(const char* label, double v) { std::printf("REC %s %.12g\n", label, v); }
 inline void __v_record_int(const char* label, long v) { std::printf("REC %s %ld\n", label, v); }
